@@ -619,6 +619,69 @@ func c10SubstCode93(r *fw.Rec) {
 	r.Nontrivial("c93/" + text)
 }
 
+// c10SubstCode39: Code 39 readers that are asked to demand the optional mod-43 check character
+// (every constructor that takes the flag) return the text without it, and refuse every
+// single-character substitution; readers that are not asked return all characters.
+func c10SubstCode39(r *fw.Rec) {
+	rng := r.Rng
+	ctors := []struct {
+		name  string
+		mk    func() gozxing.Reader
+		check bool
+	}{
+		{"NewCode39ReaderWithCheckDigitFlag(true)", func() gozxing.Reader { return oned.NewCode39ReaderWithCheckDigitFlag(true) }, true},
+		{"NewCode39ReaderWithFlags(true, false)", func() gozxing.Reader { return oned.NewCode39ReaderWithFlags(true, false) }, true},
+		{"NewCode39ReaderWithFlags(true, true)", func() gozxing.Reader { return oned.NewCode39ReaderWithFlags(true, true) }, true},
+		{"NewCode39ReaderWithCheckDigitFlag(false)", func() gozxing.Reader { return oned.NewCode39ReaderWithCheckDigitFlag(false) }, false},
+		{"NewCode39Reader()", oned.NewCode39Reader, false},
+	}
+	ct := ctors[rng.Intn(len(ctors))]
+	rd := ct.mk()
+	alpha := onedref.Code39Alphabet[:39] // without $ / + %, which the extended reader combines with the next letter
+	text := c10FromAlphabet(rng, alpha, 1+rng.Intn(14))
+	full := text + string(onedref.Code39Mod43(text))
+	scale, height, quiet := 1+rng.Intn(2), 1+rng.Intn(3), 10+rng.Intn(6)
+	cfg := fmt.Sprintf("quiet %d modules, %d px per module, %d rows", quiet, scale, height)
+	want := text
+	if !ct.check {
+		want = full
+	}
+	res, err := odDecode(rd, odRender(onedref.Code39Pattern(full), quiet, quiet, scale, height), nil)
+	r.Evals(1)
+	if err != nil || res.GetText() != want {
+		got := ""
+		if res != nil {
+			got = res.GetText()
+		}
+		r.Violation("model-mismatch", "code39:valid-check-character:"+ct.name, fmt.Sprintf("%s on the symbol *%s* (data %s + mod-43 check %q, %s) returned %s %v, expected %s", ct.name, full, odQuote(text), full[len(full)-1], cfg, odQuote(got), err, odQuote(want)),
+			map[string]interface{}{"constructor": ct.name, "symbol": full, "rendering": cfg})
+		return
+	}
+	r.Tally("code39_symbols_with_check_character_read")
+	if !ct.check {
+		r.Nontrivial("c39/" + ct.name + "/" + text)
+		return
+	}
+	for pos := 0; pos < len(full); pos++ {
+		for v := 0; v < 43; v++ {
+			c := onedref.Code39Alphabet[v]
+			if c == full[pos] {
+				continue
+			}
+			mut := full[:pos] + string(c) + full[pos+1:]
+			res, err := odDecode(rd, odRender(onedref.Code39Pattern(mut), quiet, quiet, scale, height), nil)
+			r.Evals(1)
+			if err == nil {
+				r.Violation("model-mismatch", "code39:substitution-read-although-the-check-character-is-demanded", fmt.Sprintf("%s: symbol *%s* with character %d replaced by %q (mod-43 check no longer verifies) was read as %s", ct.name, full, pos, c, odQuote(res.GetText())),
+					map[string]interface{}{"constructor": ct.name, "symbol": full, "mutated": mut, "returned": odQuote(res.GetText()), "rendering": cfg})
+				return
+			}
+			r.Tally("code39_substitutions_refused")
+		}
+	}
+	r.Nontrivial("c39/" + ct.name + "/" + text)
+}
+
 // c10Code93K: the K check character over data+C (weights 1..15 from the right), AIM Code 93.
 func c10Code93K(valsWithC []int) int {
 	sum, w := 0, 1
@@ -874,7 +937,7 @@ func c10AddOn5(r *fw.Rec, vals []int) {
 // ---------------------------------------------------------------------------
 
 func c10(c *fw.Ctx) {
-	c.Rule("writers: seeded payloads of EAN-13/EAN-8/UPC-A/UPC-E (incl. all-0, all-9, zero-rich) and all (thorough) / 200 000 sampled (quick) UPC-E numbers and EAN-8 payloads: the bars drawn must equal the onedref pattern carrying the independent mod-10 digit (UPC-E: of the expanded number), all nine wrong supplied digits must be refused; Code 128: drawn bars parsed with the reference width table, check character == mod-103 of the drawn characters and characters spell the text; Code 93: bars == reference symbol with C and K. Readers: symbols rendered from onedref patterns (white quiet zone >= 10 modules, 2-3 px per module, 4-10 rows): the valid number (control) and every one-digit substitution carried by a well-formed symbol; sweeps at 1 row: every UPC-E symbol (2 number systems x 10^6 digit strings x 10 parity patterns) and every 8-digit EAN-8 string in thorough, stratified samples in quick; Code 128 / Code 93: every symbol-character position (start, data, check) x every other value; UPC-E expansion of all 2*10^6 numbers and expand(suppress(n)) for all numbers of the four GS1 suppression rules; add-ons: 100 EAN-2 values x 4 number-set choices on each of the four main symbologies, EAN-5 values x all 32 number-set patterns")
+	c.Rule("writers: seeded payloads of EAN-13/EAN-8/UPC-A/UPC-E (incl. all-0, all-9, zero-rich) and all (thorough) / 200 000 sampled (quick) UPC-E numbers and EAN-8 payloads: the bars drawn must equal the onedref pattern carrying the independent mod-10 digit (UPC-E: of the expanded number), all nine wrong supplied digits must be refused; Code 128: drawn bars parsed with the reference width table, check character == mod-103 of the drawn characters and characters spell the text; Code 93: bars == reference symbol with C and K. Readers: symbols rendered from onedref patterns (white quiet zone >= 10 modules, 2-3 px per module, 4-10 rows): the valid number (control) and every one-digit substitution carried by a well-formed symbol; sweeps at 1 row: every UPC-E symbol (2 number systems x 10^6 digit strings x 10 parity patterns) and every 8-digit EAN-8 string in thorough, stratified samples in quick; Code 128 / Code 93: every symbol-character position (start, data, check) x every other value; UPC-E expansion of all 2*10^6 numbers and expand(suppress(n)) for all numbers of the four GS1 suppression rules; add-ons: 100 EAN-2 values x 4 number-set choices on each of the four main symbologies, EAN-5 values x all 32 number-set patterns Code 39: every constructor that takes the check-digit flag (data + mod-43 check read as the data; every single-character substitution refused; without the flag all characters returned).")
 	c.Assume("reader oracle: a number may be returned only if it is exactly the number the symbol carries and onedref says its check digit verifies; any error is accepted for every other symbol. Controls (valid reference symbols) that are not read make the case inconclusive, not failed")
 	c.Assume("UPC-E substitutions are defined on the symbol: digits 1..6 are replaced under the unchanged parity pattern, the check digit by drawing the parity pattern of the other digit, the number system by 0<->1 (the only other value a UPC-E symbol can carry): 1+54+9 = 64 per number; the oracle recomputes validity of the carried number (a sixth-digit substitution can change the zero-suppression layout onto a valid number)")
 	c.Assume("the verdict is on the matching reader. The multi-format reader (no hints) decodes the same images: returning the carried stale number itself is charged (check not enforced); a number of another format for a STALE symbol (e.g. the EAN-8 decoder reading digits 1-4 and 7-10 of a 12-digit symbol past an unanchored centre-guard search, check digit passing by chance) is charged under the signature multi-upcean:stale-symbol-read-as-number-of-other-format (every occurrence tallied as multi_*_symbol_read_*as_number_of_format_*, one event per case); UPC-A reported as EAN-13 '0'+number counts as the carried number")
@@ -1051,6 +1114,7 @@ func c10(c *fw.Ctx) {
 	for i := 0; i < ns; i++ {
 		c.Run(fmt.Sprintf("subst/code128/%d", i), c10SubstCode128)
 		c.Run(fmt.Sprintf("subst/code93/%d", i), c10SubstCode93)
+		c.Run(fmt.Sprintf("subst/code39/%d", i), c10SubstCode39)
 	}
 
 	// --- D. expansion ---
@@ -1109,6 +1173,8 @@ func c10(c *fw.Ctx) {
 	c.Floor("code128_substitutions_refused", 100000)
 	c.Floor("code93_substitutions_refused", 50000)
 	c.Floor("code93_non_verifying_check_pairs_refused", 500)
+	c.Floor("code39_substitutions_refused", 20000)
+	c.Floor("code39_symbols_with_check_character_read", 100)
 	c.Floor("upce_expansions_compared", 2000000)
 	c.Floor("suppressible_numbers_rule_1", 600000)
 	c.Floor("suppressible_numbers_rule_2", 200000)
